@@ -22,6 +22,8 @@
 #include <QSslSocket>
 #include <QTimer>
 
+#include <algorithm>
+
 using namespace QXmpp::Private;
 
 constexpr uint RESOURCE_RANDOM_SUFFIX_LENGTH = 8;
@@ -58,8 +60,34 @@ QXmppIncomingClientPrivate::QXmppIncomingClientPrivate(QXmppIncomingClient *qq)
 {
 }
 
+// The SASL user name becomes the localpart of the client's JID: it must be a valid one
+// (RFC 7622, section 3.3.1). In particular it must not contain '@' or '/', which would make the
+// resulting address parse as the address of another user.
+static bool isValidLocalpart(const QString &username)
+{
+    if (username.isEmpty()) {
+        return false;
+    }
+    return std::none_of(username.cbegin(), username.cend(), [](QChar c) {
+        return c.isSpace() || c.unicode() < 0x20 || QStringView(u"\"&'/:<>@").contains(c);
+    });
+}
+
 void QXmppIncomingClientPrivate::checkCredentials(const QByteArray &response)
 {
+    if (!isValidLocalpart(saslServer->username())) {
+        q->warning(u"Authentication refused for invalid user name '%1' from %2"_s.arg(saslServer->username(), origin()));
+        Q_EMIT q->updateCounter(u"incoming-client.auth.not-authorized"_s);
+        if (saslVersion == Sasl) {
+            q->sendData(serializeXml(Sasl::Failure { Sasl::ErrorCondition::NotAuthorized, QString() }));
+        } else {
+            sasl2AuthRequest.reset();
+            q->sendData(serializeXml(Sasl2::Failure { Sasl::ErrorCondition::NotAuthorized, QString() }));
+        }
+        q->disconnectFromHost();
+        return;
+    }
+
     QXmppPasswordRequest request;
     request.setDomain(domain);
     request.setUsername(saslServer->username());
